@@ -7,6 +7,12 @@ integers in every radix, fast-path limits, per-table-row significands.
 """
 import random, struct
 
+
+def samp(rng, pop, k):
+    """rng.sample that never asks for more than there is"""
+    pop = list(pop)
+    return rng.sample(pop, max(0, min(k, len(pop))))
+
 DIG = "0123456789ABCDEFGHIJKLMNOPQRSTUVWXYZ"
 
 F64 = dict(p=53, emin=-1074, emax=971, name="f64", bits=64, mbits=52, ebits=11)
@@ -108,7 +114,7 @@ def halfway_inputs(F, rng, binades, pats_per=3, long_ok=True, variants=True):
         pats = mantissa_patterns(F, rng)
         if e == F["emin"]:
             pats = [1, 2, 3, (1 << (F["p"] - 1)) - 1, rng.randrange(1, 1 << (F["p"] - 1))] + pats[:2]
-        for m in rng.sample(pats, min(pats_per, len(pats))):
+        for m in samp(rng, pats, min(pats_per, len(pats))):
             if e == F["emax"] and m == (1 << F["p"]) - 1:
                 pass  # midpoint to "2^(emax+p)" is the overflow threshold: keep it
             ds, q = exact_decimal(2 * m + 1, e - 1)
@@ -122,7 +128,7 @@ def halfway_inputs(F, rng, binades, pats_per=3, long_ok=True, variants=True):
             forms.append(str(int(ds) - 1).rjust(n, "0"))          # one unit below in the last place
             forms.append(ds + "0" * rng.choice([0, 1, 5]) + "1")   # strictly above
             cuts = [c for c in (17, 19, 20, 21, 767, 768, 769, 770) if c < n]
-            for c in rng.sample(cuts, min(3, len(cuts))):
+            for c in samp(rng, cuts, min(3, len(cuts))):
                 forms.append(ds[:c])
                 forms.append(ds[:c - 1] + str((int(ds[c - 1]) + 1) % 10))
             for fdig in forms:
@@ -366,7 +372,7 @@ def endpoint_family(F, rng, kmin, kmax, limit=None):
             cands = sorted({rng.randrange(lo, hi + 1) | 1 for _ in range(limit or 2000)})
             cands = [d for d in cands if lo <= d <= hi]
         elif limit and len(cands) > limit:
-            cands = rng.sample(cands, limit)
+            cands = samp(rng, cands, limit)
         for d in cands:
             M = d * f5                     # odd, p+1 bits: midpoint = M * 2^(k-1)... value d*10^k = M * 2^k
             if M.bit_length() != p + 1 or M % 2 == 0:
@@ -469,12 +475,12 @@ def radix_inputs(F, r, rng, nbin, base=None, xr=None, echar="^", long_frac=0.1):
     xr = xr or r
     out = []
     allb = list(range(F["emin"], F["emax"] + 1))
-    for e in rng.sample(allb, min(nbin, len(allb))):
+    for e in samp(rng, allb, min(nbin, len(allb))):
         pats = mantissa_patterns(F, rng, k=2)
         if e == F["emin"]:
             pats = [1, 3, rng.randrange(1, 1 << (F["p"] - 1))]
-        for m in rng.sample(pats, 2):
-            for nd in rng.sample([5, 12, 17, 22, 30, 45, 70, 140], 3):
+        for m in samp(rng, pats, 2):
+            for nd in samp(rng, [5, 12, 17, 22, 30, 45, 70, 140], 3):
                 D, q, exact = radix_near(F, r, m, e, nd, base, xr)
                 if D <= 0:
                     continue
